@@ -227,7 +227,7 @@ impl Prop for C15 {
         "C15"
     }
     fn rule(&self, tier: Tier) -> String {
-        format!("E-SHAPE: real make_est_times on every (topology in the dispatch family{} with 0..2 alternative routes and 1-2 origin/destination segments) x origin/destination pair (both directions) x train length in {{360 m, 1080 m}} x departure in {{0, 300}} s; then EVERY node and EVERY start-to-end walk over idx_next / idx_next_alt of the returned graph (states = nodes, transitions = edges, traces = walks, all enumerated). distinct_nontrivial = distinct (topology, single/multi-origin, number of distinct routes spelled by the walks, number of walks) signatures.", if tier.is_thorough() { ", middle links 0.5 / 3 / 20 km, departures {0,60,300,900,3600} s" } else { ", middle links 0.5 / 3 / 20 km" })
+        format!("E-SHAPE: real make_est_times on every (topology in the dispatch family{} with 0..2 alternative routes and 1-2 origin/destination segments, PLUS the cut-off family: a fast main track of length 1..8 km on a 100 m grid against a shorter, slower cut-off ({} (length, speed) variants) between the same two switches) x origin/destination pair (both directions) x train length in {{360 m, 1080 m}} x departure in {{0, 300}} s; then EVERY node and EVERY start-to-end walk over idx_next / idx_next_alt of the returned graph (states = nodes, transitions = edges, traces = walks, all enumerated). distinct_nontrivial = distinct (topology, single/multi-origin, number of distinct routes spelled by the walks, number of walks) signatures.", if tier.is_thorough() { ", middle links 0.5 / 3 / 20 km, departures {0,60,300,900,3600} s" } else { ", middle links 0.5 / 3 / 20 km" }, if tier.is_thorough() { 4 } else { 2 })
     }
     fn assumptions(&self) -> Vec<String> {
         vec![
@@ -238,7 +238,9 @@ impl Prop for C15 {
     fn explore(&self, ctx: &mut Ctx) {
         // the graphs are tiny: both tiers use every middle-link length; the thorough tier adds departure times
         let deps: Vec<u32> = if ctx.tier.is_thorough() { vec![0, 60, 300, 900, 3600] } else { vec![0, 300] };
-        for t in topologies(true) {
+        let mut topos = topologies(true);
+        topos.extend(cutoff_topologies(ctx.tier.is_thorough()));
+        for t in topos {
             for od in 0..t.ods.len() {
                 for &dep in &deps {
                     for long in [false, true] {
@@ -279,7 +281,8 @@ impl Prop for C15 {
             Ok(c) => c,
             Err(e) => return ReplayOutcome { violations: vec![("bad-replay-file".into(), e.to_string())], observation: String::new() },
         };
-        let topos = topologies(true);
+        let mut topos = topologies(true);
+        topos.extend(cutoff_topologies(true));
         let Some(t) = topos.iter().find(|t| t.name == c.topo) else {
             return ReplayOutcome { violations: vec![("bad-replay-file".into(), "unknown topology".into())], observation: String::new() };
         };
